@@ -12,8 +12,17 @@ DEFAULT_RULE = (
     "held (the evaluation could have failed); distinct_nontrivial = number of distinct (abstract joint state "
     "fingerprint before the event, event, predicate) triples among the non-trivial ones, unioned over all shards."
 )
-RULE = {}
-EXPLANATION = {}
+RULE = {
+    "C16": "One probe program per (public type, trait fact). evaluations = probe programs judged; a case is non-trivial when it produced a verdict "
+           "that could have gone the other way: an exploit program rejected by rustc with E0277 naming Send/Sync/Unpin (its control twin builds), or a "
+           "control twin that builds and runs clean under Miri. distinct_nontrivial = number of such distinct programs.",
+}
+EXPLANATION = {
+    "C16": "The for-all-types statement is a fact about the trait solver and cannot be observed on executions. Decided on a finite witness matrix: "
+           "for every negative fact an exploit program is built; if rustc rejects it (E0277) no execution exists for that witness (held); if it "
+           "builds it is executed under Miri (data-race detector) with a thread-affinity monitor and what is observed is the violation. Positive "
+           "facts are control twins that must build and run clean under Miri.",
+}
 
 ASSUMPTIONS = [
     "rustc/LLVM, the Miri interpreter and the sanitizer runtimes are trusted",
@@ -110,6 +119,7 @@ def c20(tier):
 
 
 PLAN = {
+    "C16": lambda tier: [{"kind": "probes", "name": "probe-matrix"}],
     "C19": c19,
     "C20": c20,
     "C01": lambda tier: all_drivers(tier),
@@ -151,6 +161,7 @@ FLOORS = {
     "C15": (100_000, 1_000_000),
     "C17": (500_000, 5_000_000),
     "C18": (500_000, 5_000_000),
+    "C16": (100, 100),
     "C19": (1_000_000, 10_000_000),
     "C20": (1_000_000, 10_000_000),
 }
